@@ -1,5 +1,9 @@
 """C05 - all exact compilation back ends and semirings agree (each cell judged by Semantics.tla)."""
-from .. import pl, progs, semcheck
+import json
+import random
+
+from .. import mc, pl, progs, semcheck, tlc
+from ..tlc import MachineryError
 from . import common
 
 
@@ -37,10 +41,164 @@ def run(ctx):
     cov["backends_unavailable"] = [b for b in ("sdd", "sddx", "fsdd", "fbdd", "bdd") if b not in backends]
     cov["cells"] = ["%s/%s" % c for c in cells]
     cov["relational_comparisons"] = ctx.cov.get("relational", 0)
+    cov["evaluator_model"] = evaluator_model(ctx)
     ctx.write_evidence("exploration", cov, assumptions=[
         "SDD/BDD back ends need PySDD, which is not installed in this sandbox: only d-DNNF (dsharp) cells are decided",
         "the symbolic semiring's expression is evaluated as ordinary arithmetic (Python operator precedence)"])
 
 
+# ------------------------------------------------------------------------------------------------------------------
+# Layer B: DDNNFEval.tla (model of SimpleDDNNFEvaluator) - model checking, spec -> code replay, code -> spec validation
+FK = 1000000
+GRID = [[[1, 2], [1, 2]], [[1, 4], [3, 4]], [[1, 1], [1, 1]], [[0, 1], [1, 1]], [[1, 1], [0, 1]], [[3, 10], [7, 10]], [[1, 5], [1, 1]]]
+
+
+def shannon(nv, f):
+    """smooth decision-DNNF of the boolean function f (set of frozensets of true variables) - as DDNNFEvalMC!Sh"""
+    nodes = [{"t": "atom", "ch": [], "id": "", "det": 0} for _ in range(nv)]
+
+    def sh(fs, i):
+        if i > nv:
+            return 0 if fs else FK
+        lo = sh({s for s in fs if i not in s}, i + 1)
+        hi = sh({s - {i} for s in fs if i in s}, i + 1)
+
+        def andk(lit, sub):
+            if sub == FK:
+                return FK
+            if sub == 0:
+                return lit
+            nodes.append({"t": "conj", "ch": [lit, sub], "id": "", "det": 0})
+            return len(nodes)
+        a = andk(i, hi)
+        b = andk(-i, lo)
+        if a == FK:
+            return b
+        if b == FK:
+            return a
+        nodes.append({"t": "disj", "ch": [a, b], "id": "", "det": 0})
+        return len(nodes)
+    key = sh(f, 1)
+    return nodes if (key == len(nodes) and key > nv) else None
+
+
+def _close(x, q, tol=1e-9):
+    return abs(x - q[0] / q[1]) <= tol * max(1.0, abs(q[0] / q[1]))
+
+
+def _describe(c):
+    return "circuit %s, weights %s, evidence %s, queries %s, %s" % (
+        json.dumps([[n["t"], n["ch"]] for n in c["g"]]), json.dumps(c["w0"]), c["ev"], c["qs"], "NSP" if c["nsp"] else "probability")
+
+
+def _judge_real(ctx, c, o, exp):
+    """exp: {'zero', 'expected', 'defined', 'pe'}; Layer-A verdicts on one recorded run"""
+    sig = {"level": "evaluator-direct", "nsp": bool(c["nsp"]), "evidence": len(c["ev"])}
+    case = {"dd": {k: c[k] for k in ("g", "w0", "ev", "qs", "nsp")}}
+    if o.get("error"):
+        if exp["zero"] and o["error"].startswith("ZeroDivisionError"):
+            cl = "inconsistent-evidence-not-reported"
+        else:
+            cl = "crash"
+        ctx.violation(dict(sig, clause=cl, error=o["error"].split(":")[0], site=o.get("site", "")),
+                      "%s: %s" % (_describe(c), o["error"]), case)
+        return
+    if exp["zero"]:
+        if o["pc"] != "inconsistent":
+            ctx.violation(dict(sig, clause="inconsistent-evidence-not-reported"),
+                          "%s: P(evidence) = 0 but the evaluator answered %s" % (_describe(c), o.get("results")), case)
+        return
+    if o["pc"] == "inconsistent":
+        ctx.violation(dict(sig, clause="consistent-evidence-rejected"),
+                      "%s: P(evidence) = %d/%d but InconsistentEvidenceError was raised" % (_describe(c), exp["pe"][0], exp["pe"][1]), case)
+        return
+    if not _close(o["pev"], exp["pe"]):
+        ctx.violation(dict(sig, clause="evidence-probability"),
+                      "%s: evaluate_evidence() = %r, P(evidence) = %d/%d" % (_describe(c), o["pev"], exp["pe"][0], exp["pe"][1]), case)
+    if exp["defined"]:
+        for i, (x, q) in enumerate(zip(o["results"], exp["expected"])):
+            if not _close(x, q):
+                ctx.violation(dict(sig, clause="evaluator-value", query_kind="true" if c["qs"][i] == 0 else ("false" if c["qs"][i] == FK else "literal"),
+                                   position=min(i, 1)),
+                              "%s: evaluate(%s) [call %d] = %r, weighted model count ratio = %d/%d" % (
+                                  _describe(c), c["qs"][i], i + 1, x, q[0], q[1]), case)
+                break
+
+
+def evaluator_model(ctx):
+    runs = [("DDNNFEvalMC", "DDNNFEval_small.cfg", True), ("DDNNFEvalMC", "DDNNFEval_nocacheclear.cfg", False),
+            ("DDNNFEvalMC", "DDNNFEval_evcheck.cfg", False)]
+    if ctx.tier == "thorough":
+        runs += [("DDNNFEvalMC", "DDNNFEval_w2.cfg", True), ("DDNNFEvalMC", "DDNNFEval_big.cfg", True)]
+    R = mc.check_cfgs(runs, nproc=ctx.nproc, timeout=ctx.pick(1800, 20000), parallel=3)
+    ok_runs = [cfg for _, cfg, e in runs if e]
+    cov = {"model_states": sum(R[c]["states"] for c in ok_runs),
+           "model_configs": {c: {"states": r["states"], "depth": r["depth"]} for c, r in R.items()},
+           "expected_counterexamples_found": ["DDNNFEval_nocacheclear.cfg (set_weight keeps cache_intermediate)",
+                                              "DDNNFEval_evcheck.cfg (set_evidence tests the new weight instead of the current one)"]}
+    H = mc.exported(R["DDNNFEval_small.cfg"]["out"])
+    if not H:
+        raise MachineryError("no behaviours exported by DDNNFEval_small.cfg")
+    cases = [{"id": i, "g": h["g"], "w0": h["w0"], "ev": h["ev"], "qs": h["qs"], "nsp": h["nsp"], "model": h} for i, h in enumerate(H)]
+    nexp = len(cases)
+    rng = random.Random(ctx.seed + 50505)
+    while len(cases) < nexp + ctx.pick(1200, 15000):
+        nv = rng.choice([2, 3, 3, 4])
+        allsets = [frozenset(v for v in range(1, nv + 1) if (m >> (v - 1)) & 1) for m in range(2 ** nv)]
+        f = {s for s in allsets if rng.random() < rng.choice([0.3, 0.5, 0.8, 1.0])}
+        g = shannon(nv, f) if f else None
+        if not g:
+            continue
+        lits = [v if rng.random() < 0.5 else -v for v in rng.sample(range(1, nv + 1), rng.choice([0, 0, 1, 1, 2]))]
+        qs = [rng.choice([v, -v]) for v in (rng.randint(1, nv) for _ in range(rng.randint(1, 4)))]
+        if rng.random() < 0.3:
+            qs.insert(rng.randrange(len(qs) + 1), rng.choice([0, FK]))
+        cases.append({"id": len(cases), "g": g, "w0": [rng.choice(GRID) for _ in range(nv)], "ev": lits, "qs": qs,
+                      "nsp": int(rng.random() < 0.35)})
+    chunk = 500
+    res = pl.run_jobs([("ddnnf_eval_replay", {"cases": [{k: c[k] for k in ("id", "g", "w0", "ev", "qs", "nsp")} for c in cases[i:i + chunk]]})
+                       for i in range(0, len(cases), chunk)], nproc=ctx.nproc, timeout=600, chunksize=1)
+    real = {}
+    for r in res:
+        if r.get("error"):
+            raise MachineryError("ddnnf_eval_replay failed: %s" % r)
+        for o in r["results"]:
+            real[o["id"]] = o
+    drift = 0
+    # (1) behaviours TLC explored: the model's values are the weighted-model-count ratios (ResultsCorrect was checked on them)
+    for c in cases[:nexp]:
+        ctx.evaluations += 1
+        m = c["model"]
+        exp = {"zero": m["pc"] == "inconsistent", "expected": m["results"], "defined": m["defined"] == 1,
+               "pe": m["pev"][0] if m["pev"] else [0, 1]}
+        _judge_real(ctx, c, real[c["id"]], exp)
+    # (2) larger random instances: Layer A and the model are evaluated by TLC on the recorded input
+    rc = cases[nexp:]
+    J = tlc.judge_batch("JudgeDDNNFEval", [{k: c[k] for k in ("id", "g", "w0", "ev", "qs", "nsp")} for c in rc], nproc=ctx.nproc, tag="c05dd")
+    for c in rc:
+        ctx.evaluations += 1
+        j, o = J[c["id"]], real[c["id"]]
+        _judge_real(ctx, c, o, {"zero": j["zero"] == 1, "expected": j["expected"], "defined": j["defined"] == 1, "pe": j["pe"]})
+        if not o.get("error"):
+            mpc = "inconsistent" if j["mbad"] == 1 else "ready"
+            if mpc != o["pc"] or (mpc == "ready" and any(not _close(x, q) for x, q in zip(o["results"], j["model"]))):
+                drift += 1
+    if drift:
+        print("DRIFT property=C05 %d of %d runs of the real SimpleDDNNFEvaluator differ from DDNNFEval.tla (each judged by Layer A)" % (drift, len(rc)))
+    cov.update({"model_behaviours_replayed": nexp, "random_instances_validated": len(rc), "model_drift": drift})
+    return cov
+
+
 def replay(ctx, path):
+    with open(path) as f:
+        d = json.load(f)
+    if "dd" in d["case"]:
+        c = dict(d["case"]["dd"], id=0)
+        o = pl.run_local("ddnnf_eval_replay", cases=[c])["results"][0]
+        j = tlc.judge_batch("JudgeDDNNFEval", [c], nproc=1)[0]
+        print(_describe(c), "\n->", o, "\nexpected:", j)
+        ctx.evaluations = 1
+        _judge_real(ctx, c, o, {"zero": j["zero"] == 1, "expected": j["expected"], "defined": j["defined"] == 1, "pe": j["pe"]})
+        ctx.write_evidence("exploration", {"evaluations": 1, "distinct_nontrivial": 0, "samples": [d["case"]]})
+        return
     common.sem_replay(ctx, path)
